@@ -1,3 +1,611 @@
-import Cutadapt.Pipeline
+import Cutadapt.Proofs.ModsPairedPipe
+import Cutadapt.Proofs.ModsAssembly
+import Cutadapt.Proofs.ModsBounds
+/-! # C03 — output reads are aligned slices of the input; qualities stay in step
+
+Model: `Cutadapt.Records` (`Read`, matches), `Cutadapt.Modifiers` (`applyS`, `matchAndTrim`, `rounds`),
+`Cutadapt.Pipeline` (`applyP`, `runModsS`). Helper lemmas: `Cutadapt/Proofs/Mods*.lean`.
+
+Vocabulary (defined in `Cutadapt.Proofs.ModsSeg` / `ModsStages`, restated below as `…_def` theorems):
+* `SameSeg r r'` — `r'` carries a contiguous slice of the sequence of `r` and the *same* slice of its qualities;
+* `QualOK r` — qualities, when present, are as long as the sequence (dnaio's invariant on input records);
+* `SegRel strict bases r r'` — as `SameSeg`, with the qualities zero-capped by `bases` in turn, and (when `strict = false`)
+  the sequence only required to have the length of the slice (mask / lowercase rewrite bases, never lengths);
+* `AdaptersInBounds ads` — every match of every adapter has `rstart ≤ rstop ≤ len(sequence)` (soundness of the aligner,
+  property C01; used only where mask/lowercase need `remainder(matches)` to lie inside the read).
+
+All theorems are about arbitrary reads, adapters and option values. -/
 namespace Cutadapt.C03
+open Cutadapt Cutadapt.Adapters Cutadapt.Qualtrim
+
+/-! ## 1. Slices of reads -/
+
+theorem sameSeg_def (r r' : Read) :
+    SameSeg r r' ↔ ∃ a b, r'.seq = seg r.seq a b ∧ r'.qual = r.qual.map (seg · a b) := Iff.rfl
+
+theorem qualOK_def (r : Read) : QualOK r ↔ ∀ q, r.qual = some q → q.length = r.seq.length := Iff.rfl
+
+/-- a slice of a slice is a slice (bounds are clamped, hence the `min`) -/
+theorem seg_of_seg (xs : List α) (a b c d : Nat) : seg (seg xs a b) c d = seg xs (a + c) (min b (a + d)) :=
+  seg_seg xs a b c d
+
+theorem sameSeg_refl (r : Read) : SameSeg r r := SameSeg.refl r
+
+theorem sameSeg_trans {r r' r'' : Read} (h1 : SameSeg r r') (h2 : SameSeg r' r'') : SameSeg r r'' := h1.trans h2
+
+/-- slicing keeps sequence and qualities equally long -/
+theorem sameSeg_qualOK {r r' : Read} (h : SameSeg r r') (hq : QualOK r) : QualOK r' := h.qualOK hq
+
+theorem sub_sameSeg (r : Read) (a b : Nat) : SameSeg r (r.sub a b) ∧ (r.sub a b).name = r.name := ⟨SameSeg.sub r a b, rfl⟩
+
+theorem takeFront_sameSeg (r : Read) (k : Nat) : SameSeg r (r.takeFront k) ∧ (r.takeFront k).name = r.name :=
+  ⟨SameSeg.takeFront r k, rfl⟩
+
+theorem dropFront_sameSeg (r : Read) (k : Nat) : SameSeg r (r.dropFront k) ∧ (r.dropFront k).name = r.name :=
+  ⟨SameSeg.dropFront r k, rfl⟩
+
+/-- Python slicing with optional / negative bounds normalises the bounds against the length of the string sliced, so
+    sequence and qualities are cut at the same places because they are equally long -/
+theorem slice_sameSeg (r : Read) (hq : QualOK r) (a b : Option Int) :
+    SameSeg r (r.slice a b) ∧ (r.slice a b).name = r.name := ⟨SameSeg.slice r hq a b, rfl⟩
+
+/-- `match.trimmed(read)` for single and linked matches -/
+theorem trimmed_sameSeg (m : AnyMatch) (r : Read) : SameSeg r (m.trimmed r) ∧ (m.trimmed r).name = r.name :=
+  ⟨m.trimmed_sameSeg r, m.trimmed_name r⟩
+
+/-- the reverse complement of a slice is a slice of the reverse complement -/
+theorem revcomp_sameSeg {r r' : Read} (h : SameSeg r r') (hq : QualOK r) : SameSeg r.revcomp r'.revcomp := h.revcomp hq
+
+example : (⟨[114], [65,67,71,84,65], some [33,34,35,36,37]⟩ : Read).slice (some 1) (some (-1))
+    = ⟨[114], [67,71,84], some [34,35,36]⟩ := by decide
+
+/-! ## 2. Modifiers other than the adapter stage -/
+
+/-- **`-u`, `--nextseq-trim`, `-q`, `--poly-a`, `--length`, `--trim-n` only slice**: the result is a slice of the input
+    (same bounds for sequence and qualities), with the same name; matches, original read and orientation flag of the
+    `ModificationInfo` are untouched. (`.cut 0` is never constructed; the model raises, so the statement is vacuous there.) -/
+theorem trimming_modifiers_slice (names : Names) (side : Nat) (m : SMod) (hm : m.isTrimmer = true)
+    (r r' : Read) (i i' : Info) (evs : List Event) (hq : QualOK r)
+    (h : applyS names side m r i = .ok (r', i', evs)) :
+    SameSeg r r' ∧ r'.name = r.name ∧ i'.mts = i.mts ∧ i'.original = i.original ∧ i'.isRc = i.isRc :=
+  applyS_trimmer names side m hm r r' i i' evs hq h
+
+theorem isTrimmer_iff (m : SMod) :
+    m.isTrimmer = true ↔ (∃ n, m = .cut n) ∨ (∃ c b, m = .nextseq c b) ∨ (∃ cf cb b, m = .qtrim cf cb b) ∨
+      (∃ rc, m = .polyA rc) ∨ (∃ n, m = .shorten n) ∨ m = .trimN := by
+  cases m <;> simp [SMod.isTrimmer]
+
+/-- **`--length-tag`, `--strip-suffix`, `-x`/`-y`, `--rename` leave bases and qualities alone** -/
+theorem name_modifiers_keep_bases (names : Names) (side : Nat) (m : SMod) (hm : m.isNameMod = true)
+    (r r' : Read) (i i' : Info) (evs : List Event) (h : applyS names side m r i = .ok (r', i', evs)) :
+    r'.seq = r.seq ∧ r'.qual = r.qual ∧ i' = i ∧ evs = [] :=
+  applyS_nameMod names side m hm r r' i i' evs h
+
+theorem isNameMod_iff (m : SMod) :
+    m.isNameMod = true ↔ (∃ t, m = .lengthTag t) ∨ (∃ s, m = .stripSuffix s) ∨ (∃ p s, m = .prefixSuffix p s) ∨
+      (∃ t, m = .rename t) := by
+  cases m <;> simp [SMod.isNameMod]
+
+/-- **`-z` only raises qualities below the base to the base**: sequence and name unchanged, the quality string keeps its
+    length, and position `k` holds `base` if the character was below `base`, the old character otherwise -/
+theorem zero_cap_only_below_base (names : Names) (side base : Nat) (r r' : Read) (i i' : Info) (evs : List Event)
+    (h : applyS names side (.zeroCap base) r i = .ok (r', i', evs)) :
+    r'.seq = r.seq ∧ r'.name = r.name ∧ i' = i ∧
+    (r.qual = none → r'.qual = none) ∧
+    (∀ q, r.qual = some q → ∃ q', r'.qual = some q' ∧ q'.length = q.length ∧
+      ∀ k (hk : k < q.length), q'[k]? = some (if q[k].toNat < base then base.toUInt8 else q[k])) := by
+  obtain ⟨h1, h2, h3, h4, _⟩ := applyS_zeroCap names side base r r' i i' evs h
+  refine ⟨h1, h2, h4, ?_, ?_⟩
+  · intro hn; rw [h3, hn]; rfl
+  · intro q hq
+    refine ⟨capQual base q, by rw [h3, hq]; rfl, capQual_length base q, ?_⟩
+    intro k hk
+    simp [capQual, hk]
+
+example : applyS [] 0 (.zeroCap 33) ⟨[114], [65,67,71], some [10,33,50]⟩ { original := default } =
+    .ok (⟨[114], [65,67,71], some [33,33,50]⟩, { original := default }, []) := rfl
+
+/-! ## 3. `match_and_trim`, action by action -/
+
+/-- the loop `for _ in range(times)` applied to the read the cutter searches -/
+abbrev loopResult (c : Cutter) (read : Read) : Read × List AnyMatch := rounds c.adapters c.times (searchRead c read) []
+
+theorem searchRead_def (c : Cutter) (read : Read) :
+    searchRead c read = if c.action = .lowercase then { read with seq := upperBytes read.seq } else read := by
+  simp [searchRead, Action.beq_eq_decide]
+
+/-- `match_and_trim` is the fast path `_match_and_trim_once_action_trim` when `times = 1` and the action is `trim`, and
+    the general path (loop over the rounds, then the action) otherwise -/
+theorem matchAndTrim_paths (c : Cutter) (read : Read) :
+    matchAndTrim c read =
+      if c.times == 1 && c.action == .trim then
+        match bestMatch c.adapters read.seq with
+        | some m => .ok (m.trimmed read, [m], read)
+        | none => .ok (read, [], read)
+      else generalPath c read := matchAndTrim_unfold c read
+
+theorem generalPath_def (c : Cutter) (read : Read) :
+    generalPath c read =
+      match (loopResult c read).2.getLast? with
+      | none => .ok ((loopResult c read).1, [], searchRead c read)
+      | some last =>
+        match c.action with
+        | .trim => .ok ((loopResult c read).1, (loopResult c read).2, searchRead c read)
+        | .retain => .ok ((searchRead c read).sub last.retainedAdapterInterval.1 last.retainedAdapterInterval.2,
+                          (loopResult c read).2, searchRead c read)
+        | .mask => .ok (maskedRead (searchRead c read) (loopResult c read).2, (loopResult c read).2, searchRead c read)
+        | .lowercase => .ok (lowercasedRead (searchRead c read) (loopResult c read).2, (loopResult c read).2, searchRead c read)
+        | .crop =>
+          match last with
+          | .single _ r => .ok ((searchRead c read).sub r.m.rstart r.m.rstop, (loopResult c read).2, searchRead c read)
+          | .linked _ _ _ => .error .attribute
+        | .none => .ok (searchRead c read, (loopResult c read).2, searchRead c read) := by
+  unfold generalPath actionResult loopResult
+  simp only
+  cases (rounds c.adapters c.times (searchRead c read) []).2.getLast? with
+  | none => rfl
+  | some last => cases c.action <;> rfl
+
+/-- **The fast path (`times = 1`, action `trim`) computes what the general path computes** -/
+theorem fastpath_eq_general (c : Cutter) (read : Read) (ht : c.times = 1) (ha : c.action = .trim) :
+    (match bestMatch c.adapters read.seq with
+      | some m => (.ok (m.trimmed read, [m], read) : Except Err (Read × List AnyMatch × Read))
+      | none => .ok (read, [], read)) = generalPath c read := fastpath_eq_general' c read ht ha
+
+/-- hence `match_and_trim` *is* the general path, for every cutter -/
+theorem matchAndTrim_is_general (c : Cutter) (read : Read) : matchAndTrim c read = generalPath c read :=
+  matchAndTrim_eq_general c read
+
+/-- no round found a match: the read is handed back unchanged (`lowercase`: upper-cased) without matches -/
+theorem no_match_unchanged (c : Cutter) (read : Read) (h : (loopResult c read).2 = []) :
+    matchAndTrim c read = .ok (searchRead c read, [], searchRead c read) := matchAndTrim_no_match c read h
+
+/-- **trim**: the read after removing the matches round by round — a slice of the input -/
+theorem action_trim_slice (c : Cutter) (read : Read) (ha : c.action = .trim) :
+    matchAndTrim c read = .ok ((rounds c.adapters c.times read []).1, (rounds c.adapters c.times read []).2, read) ∧
+    (rounds c.adapters c.times read []).1 = trimAll read (rounds c.adapters c.times read []).2 ∧
+    SameSeg read (rounds c.adapters c.times read []).1 := by
+  have hs : searchRead c read = read := searchRead_of_ne c read (by simp [ha])
+  have h2 := (rounds_spec' c.adapters c.times read).2.1
+  refine ⟨?_, h2, by rw [h2]; exact trimAll_sameSeg _ _⟩
+  rcases getLast?_cases (rounds c.adapters c.times read []).2 with hn | ⟨last, hl⟩
+  · rw [matchAndTrim_no_match c read (by rw [hs]; exact hn), hs, hn, rounds_nil_read _ _ _ hn]
+  · rw [matchAndTrim_last c read last (by rw [hs]; exact hl), hs]
+    simp [actionResult, ha]
+
+/-- **retain**: `read[a:b]` for `(a, b) = retained_adapter_interval()` of the *last* match -/
+theorem action_retain_interval (c : Cutter) (read : Read) (ha : c.action = .retain) (last : AnyMatch)
+    (hl : (rounds c.adapters c.times read []).2.getLast? = some last) :
+    matchAndTrim c read = .ok (read.sub last.retainedAdapterInterval.1 last.retainedAdapterInterval.2,
+      (rounds c.adapters c.times read []).2, read) := by
+  have hs : searchRead c read = read := searchRead_of_ne c read (by simp [ha])
+  rw [matchAndTrim_last c read last (by rw [hs]; exact hl), hs]
+  simp [actionResult, ha]
+
+/-- the documented interval of a single match: from the start of a 5' adapter to the end of the read, from the start of
+    the read to the end of a 3' adapter -/
+theorem retained_interval_single (a : Nat) (r : MatchRec) :
+    (AnyMatch.single a r).retainedAdapterInterval =
+      if r.m.before then (r.m.rstart, r.sequence.length) else (0, r.m.rstop) := rfl
+
+/-- **crop**: exactly the matched stretch `read[rstart:rstop]` of the last match (a single match) -/
+theorem action_crop_interval (c : Cutter) (read : Read) (ha : c.action = .crop) (a : Nat) (r : MatchRec)
+    (hl : (rounds c.adapters c.times read []).2.getLast? = some (.single a r)) :
+    matchAndTrim c read = .ok (read.sub r.m.rstart r.m.rstop, (rounds c.adapters c.times read []).2, read) := by
+  have hs : searchRead c read = read := searchRead_of_ne c read (by simp [ha])
+  rw [matchAndTrim_last c read _ (by rw [hs]; exact hl), hs]
+  simp [actionResult, ha]
+
+/-- crop with a linked adapter is unsupported (documented); the code raises `AttributeError` -/
+theorem action_crop_linked_unsupported (c : Cutter) (read : Read) (ha : c.action = .crop) (a : Nat)
+    (f b : Option MatchRec) (hl : (rounds c.adapters c.times read []).2.getLast? = some (.linked a f b)) :
+    matchAndTrim c read = .error .attribute := by
+  have hs : searchRead c read = read := searchRead_of_ne c read (by simp [ha])
+  rw [matchAndTrim_last c read _ (by rw [hs]; exact hl), hs]
+  simp [actionResult, ha]
+
+/-- **none**: the read is returned as it was; the matches are reported -/
+theorem action_none_identity (c : Cutter) (read : Read) (ha : c.action = .none) :
+    matchAndTrim c read = .ok (read, (rounds c.adapters c.times read []).2, read) := by
+  have hs : searchRead c read = read := searchRead_of_ne c read (by simp [ha])
+  rcases getLast?_cases (rounds c.adapters c.times read []).2 with hn | ⟨last, hl⟩
+  · rw [matchAndTrim_no_match c read (by rw [hs]; exact hn), hs, hn]
+  · rw [matchAndTrim_last c read last (by rw [hs]; exact hl), hs]
+    simp [actionResult, ha]
+
+/-- **mask**: with `(start, stop) = remainder(matches)` inside the read: same name, same qualities, same length;
+    positions in `[start, stop)` keep the input base, all others are `N` -/
+theorem action_mask_spec (c : Cutter) (read : Read) (ha : c.action = .mask)
+    (hne : (rounds c.adapters c.times read []).2 ≠ [])
+    (h1 : (remainder (rounds c.adapters c.times read []).2).1 ≤ (remainder (rounds c.adapters c.times read []).2).2)
+    (h2 : (remainder (rounds c.adapters c.times read []).2).2 ≤ read.len) :
+    ∃ out, matchAndTrim c read = .ok (out, (rounds c.adapters c.times read []).2, read) ∧
+      out.name = read.name ∧ out.qual = read.qual ∧ out.seq.length = read.seq.length ∧
+      ∀ k, out.seq[k]? = (read.seq[k]?).map (fun x =>
+        if (remainder (rounds c.adapters c.times read []).2).1 ≤ k ∧ k < (remainder (rounds c.adapters c.times read []).2).2
+        then x else 78) := by
+  have hs : searchRead c read = read := searchRead_of_ne c read (by simp [ha])
+  rcases getLast?_cases (rounds c.adapters c.times read []).2 with hn | ⟨last, hl⟩
+  · exact absurd hn hne
+  · refine ⟨maskedRead read (rounds c.adapters c.times read []).2, ?_, ?_⟩
+    · rw [matchAndTrim_last c read last (by rw [hs]; exact hl), hs]
+      simp [actionResult, ha]
+    · obtain ⟨m1, m2, m3, m4⟩ := maskedRead_spec read _ h1 h2
+      exact ⟨m3, m2, m1, m4⟩
+
+/-- **lowercase**: the whole read is upper-cased first (also in the caller's object); then, with
+    `(start, stop) = remainder(matches)` inside the read: same name, qualities and length; positions in `[start, stop)`
+    hold the upper-cased input base, all others the lower-cased input base -/
+theorem action_lowercase_spec (c : Cutter) (read : Read) (ha : c.action = .lowercase)
+    (hne : (loopResult c read).2 ≠ [])
+    (h1 : (remainder (loopResult c read).2).1 ≤ (remainder (loopResult c read).2).2)
+    (h2 : (remainder (loopResult c read).2).2 ≤ read.len) :
+    ∃ out, matchAndTrim c read = .ok (out, (loopResult c read).2, { read with seq := upperBytes read.seq }) ∧
+      out.name = read.name ∧ out.qual = read.qual ∧ out.seq.length = read.seq.length ∧
+      ∀ k, out.seq[k]? = (read.seq[k]?).map (fun x =>
+        if (remainder (loopResult c read).2).1 ≤ k ∧ k < (remainder (loopResult c read).2).2
+        then asciiUpper x else asciiLower x) := by
+  have hs : searchRead c read = { read with seq := upperBytes read.seq } := by simp [searchRead, ha, Action.beq_eq_decide]
+  unfold loopResult at *
+  rcases getLast?_cases (rounds c.adapters c.times (searchRead c read) []).2 with hn | ⟨last, hl⟩
+  · exact absurd hn hne
+  · refine ⟨lowercasedRead { read with seq := upperBytes read.seq } (rounds c.adapters c.times (searchRead c read) []).2, ?_, ?_⟩
+    · rw [matchAndTrim_last c read last hl, hs]
+      simp [actionResult, ha]
+    · obtain ⟨m1, m2, m3, m4⟩ := lowercasedRead_spec read _ h1 h2
+      exact ⟨m3, m2, m1, m4⟩
+
+/-- the hypotheses of `action_mask_spec` / `action_lowercase_spec` hold for sound adapters, and the interval is exactly
+    what the trim action would keep: `remainder(matches)` is the slice left after removing the matches -/
+theorem marked_interval_is_trim_interval (c : Cutter) (hab : AdaptersInBounds c.adapters) (read : Read)
+    (hne : (loopResult c read).2 ≠ []) :
+    (remainder (loopResult c read).2).1 ≤ (remainder (loopResult c read).2).2 ∧
+    (remainder (loopResult c read).2).2 ≤ read.len ∧
+    (loopResult c read).1.seq =
+      seg (searchRead c read).seq (remainder (loopResult c read).2).1 (remainder (loopResult c read).2).2 := by
+  obtain ⟨a, _, b1, b2⟩ := rounds_remainder c.adapters hab c.times (searchRead c read) hne
+  refine ⟨b1, ?_, a⟩
+  have : (searchRead c read).len = read.len := by unfold searchRead Read.len; split <;> simp [upperBytes]
+  rw [← this]; exact b2
+
+/-! ## 4. The rounds and `remainder(matches)` -/
+
+/-- **`rounds`**: at most `t` matches; the result is the input with the matches removed in turn; match `k+1` is the
+    best match on what matches `1..k` left; the loop stops early only at a round without match -/
+theorem rounds_spec (ads : List Matchable) (t : Nat) (read : Read) :
+    (rounds ads t read []).2.length ≤ t ∧
+    (rounds ads t read []).1 = trimAll read (rounds ads t read []).2 ∧
+    (∀ k (h : k < (rounds ads t read []).2.length),
+        bestMatch ads (trimAll read ((rounds ads t read []).2.take k)).seq = some (rounds ads t read []).2[k]) ∧
+    ((rounds ads t read []).2.length < t → bestMatch ads (rounds ads t read []).1.seq = none) :=
+  rounds_spec' ads t read
+
+theorem trimAll_def (rd : Read) (ms : List AnyMatch) : trimAll rd ms = ms.foldl (fun r m => m.trimmed r) rd := rfl
+
+theorem rounds_trimmed_is_seg (ads : List Matchable) (t : Nat) (read : Read) :
+    SameSeg read (rounds ads t read []).1 ∧ (rounds ads t read []).1.name = read.name := by
+  rw [(rounds_spec' ads t read).2.1]
+  exact ⟨trimAll_sameSeg _ _, trimAll_name _ _⟩
+
+/-- the matches `rounds` returns form a chain: every part of every match carries (as `match.sequence`) exactly the
+    string left by the parts before it, every match has a part, and (for sound adapters) all coordinates are in bounds -/
+theorem rounds_matches_chain (ads : List Matchable) (t : Nat) (read : Read) :
+    (∀ m ∈ (rounds ads t read []).2, m.parts ≠ []) ∧ MatchChain read (rounds ads t read []).2 ∧
+    (AdaptersInBounds ads → ∀ m ∈ (rounds ads t read []).2, ∀ p ∈ m.parts, p.InBounds) :=
+  rounds_chain ads t read
+
+/-- **`remainder(matches)` is what the trim action keeps** — for single and linked matches alike: if each part of each
+    match was found in what the previous parts left and has in-bounds coordinates, then removing the matches in turn
+    leaves `read[start:stop]` with `(start, stop) = remainder(matches)`, and `0 ≤ start ≤ stop ≤ len(read)` -/
+theorem remainder_correct (read : Read) (hq : QualOK read) (ms : List AnyMatch) (hne : ms ≠ [])
+    (hp : ∀ m ∈ ms, m.parts ≠ []) (hc : MatchChain read ms) (hb : ∀ m ∈ ms, ∀ p ∈ m.parts, p.InBounds) :
+    trimAll read ms = read.sub (remainder ms).1 (remainder ms).2 ∧
+    (remainder ms).1 ≤ (remainder ms).2 ∧ (remainder ms).2 ≤ read.len := by
+  obtain ⟨_, h2, h3, h4⟩ := remainder_correct' read ms hne hp hc hb
+  exact ⟨h2 hq, h3, h4⟩
+
+/-- … in particular for what `rounds` returns -/
+theorem rounds_remainder_correct (ads : List Matchable) (hab : AdaptersInBounds ads) (t : Nat) (read : Read)
+    (hq : QualOK read) (hne : (rounds ads t read []).2 ≠ []) :
+    (rounds ads t read []).1 = read.sub (remainder (rounds ads t read []).2).1 (remainder (rounds ads t read []).2).2 ∧
+    (remainder (rounds ads t read []).2).1 ≤ (remainder (rounds ads t read []).2).2 ∧
+    (remainder (rounds ads t read []).2).2 ≤ read.len := by
+  obtain ⟨_, h2, h3, h4⟩ := rounds_remainder ads hab t read hne
+  exact ⟨h2 hq, h3, h4⟩
+
+/-! ## 5. The adapter stage -/
+
+/-- **`AdapterCutter` with a cutting action**: a slice of the input with the same name; `action = none`: the input -/
+theorem adapter_stage_slice (names : Names) (side : Nat) (c : Cutter) (first : Bool)
+    (ha : c.action = .trim ∨ c.action = .retain ∨ c.action = .crop ∨ c.action = .none)
+    (r r' : Read) (i i' : Info) (evs : List Event) (h : applyS names side (.adapters c first) r i = .ok (r', i', evs)) :
+    SameSeg r r' ∧ r'.name = r.name ∧ i'.isRc = i.isRc ∧ (c.action = .none → r' = r) := by
+  rw [applyS_adapters] at h
+  split at h
+  · simp at h
+  · rename_i tr ms ra hmt
+    simp only [Except.ok.injEq, Prod.mk.injEq] at h
+    obtain ⟨rfl, rfl, _⟩ := h
+    obtain ⟨h1, h2, _, h4⟩ := matchAndTrim_slice c r _ ra ms ha hmt
+    exact ⟨h1, h2, originalAfter_isRc _ _ _, h4⟩
+
+/-- **`ReverseComplementer` with a cutting action**: a slice of the input, or — exactly when the stage sets
+    `info.is_rc = True` — of its reverse complement (name: `" rc"` appended iff `suffix`); `action = none`: the chosen
+    orientation itself -/
+theorem revcomp_stage_slice (names : Names) (side : Nat) (c : Cutter) (sfx first : Bool)
+    (ha : c.action = .trim ∨ c.action = .retain ∨ c.action = .crop ∨ c.action = .none)
+    (r r' : Read) (i i' : Info) (evs : List Event)
+    (h : applyS names side (.revcomp c sfx first) r i = .ok (r', i', evs)) :
+    (i'.isRc = some true ∧ SameSeg r.revcomp r' ∧ r'.name = r.name ++ (if sfx then bytesOfStr " rc" else []) ∧
+      (c.action = .none → r'.seq = r.revcomp.seq ∧ r'.qual = r.revcomp.qual)) ∨
+    (i'.isRc = some false ∧ SameSeg r r' ∧ r'.name = r.name ∧ (c.action = .none → r' = r)) := by
+  rw [applyS_revcomp] at h
+  split at h
+  · simp at h
+  · rename_i ftr fms fa hf
+    split at h
+    · simp at h
+    · rename_i rtr rms ra' hr
+      split at h
+      · simp only [Except.ok.injEq, Prod.mk.injEq] at h
+        obtain ⟨rfl, rfl, _⟩ := h
+        left
+        obtain ⟨⟨a, b, h1, h2⟩, h3, _, h5⟩ := matchAndTrim_slice c _ _ _ _ ha hr
+        refine ⟨rfl, ⟨a, b, ?_, ?_⟩, ?_, ?_⟩
+        · split <;> assumption
+        · split <;> assumption
+        · cases sfx <;> simp [h3, Read.revcomp_name]
+        · intro hn; rw [← h5 hn]; split <;> exact ⟨rfl, rfl⟩
+      · simp only [Except.ok.injEq, Prod.mk.injEq] at h
+        obtain ⟨rfl, rfl, _⟩ := h
+        right
+        obtain ⟨h1, h2, _, h4⟩ := matchAndTrim_slice c _ _ _ _ ha hf
+        exact ⟨rfl, h1, h2, h4⟩
+
+/-- the marking actions keep length, qualities and name (adapters with in-bounds matches) -/
+theorem adapter_stage_marked (names : Names) (side : Nat) (c : Cutter) (first : Bool)
+    (ha : c.action = .mask ∨ c.action = .lowercase) (hab : AdaptersInBounds c.adapters)
+    (r r' : Read) (i i' : Info) (evs : List Event) (h : applyS names side (.adapters c first) r i = .ok (r', i', evs)) :
+    r'.seq.length = r.seq.length ∧ r'.qual = r.qual ∧ r'.name = r.name := by
+  rw [applyS_adapters] at h
+  split at h
+  · simp at h
+  · rename_i tr ms ra hmt
+    simp only [Except.ok.injEq, Prod.mk.injEq] at h
+    obtain ⟨rfl, rfl, _⟩ := h
+    exact matchAndTrim_marked c hab r _ ra ms ha hmt
+
+/-- **Sequence and qualities always have equal length**: every single modifier keeps `|qual| = |seq|`
+    (mask / lowercase: for adapters with in-bounds matches) -/
+theorem qualOK_preserved (names : Names) (side : Nat) (m : SMod) (hok : m.OK false) (r r' : Read) (i i' : Info)
+    (evs : List Event) (hq : QualOK r) (h : applyS names side m r i = .ok (r', i', evs)) : QualOK r' := by
+  by_cases hrc : m.isRevcomp = true
+  · cases m with
+    | revcomp c sfx first =>
+      rcases applyS_revcomp_segRel false names side c sfx first hok r r' i i' evs h with ⟨_, a⟩ | ⟨_, a⟩
+      · exact a.qualOK hq.revcomp
+      · exact a.qualOK hq
+    | _ => simp [SMod.isRevcomp] at hrc
+  · exact (applyS_segRel false names side m hok (by simpa using hrc) r r' i i' evs hq h).1.qualOK hq
+
+/-! ## 6. The whole modifier list (single-end) -/
+
+theorem segRel_def (strict : Bool) (bases : List Nat) (r r' : Read) :
+    SegRel strict bases r r' ↔ ∃ a b,
+      ((seg r.seq a b).length = r'.seq.length ∧ (strict = true → seg r.seq a b = r'.seq)) ∧
+      r'.qual = r.qual.map (fun q => capAll bases (seg q a b)) := Iff.rfl
+
+theorem capAll_def (bases : List Nat) (q : Bytes) :
+    capAll bases q = bases.foldl (fun q b => q.map (fun c => if c.toNat < b then b.toUInt8 else c)) q := rfl
+
+theorem segRel_strict_nocap (r r' : Read) : SegRel true [] r r' ↔ SameSeg r r' := segRel_true_nil_iff r r'
+
+/-- zero-capping commutes with slicing -/
+theorem zero_cap_commutes_with_slicing (bases : List Nat) (q : Bytes) (a b : Nat) :
+    seg (capAll bases q) a b = capAll bases (seg q a b) := capAll_seg bases q a b
+
+/-- which modifier lists the pipeline theorems cover: the adapter stage (if any) uses a cutting action when `strict`,
+    or any action with sound adapters otherwise -/
+theorem smod_ok_def (strict : Bool) (m : SMod) :
+    m.OK strict ↔ ∀ c, ((∃ f, m = .adapters c f) ∨ (∃ s f, m = .revcomp c s f)) →
+      ((c.action = .trim ∨ c.action = .retain ∨ c.action = .crop ∨ c.action = .none) ∨
+       (strict = false ∧ AdaptersInBounds c.adapters)) := by
+  cases m <;> simp [SMod.OK, CutterOK]
+
+/-- **Output reads are aligned slices of the input.** For every modifier list with at most one `--revcomp` stage whose
+    adapter stage cuts (trim / retain / crop) or does nothing, and every input read with `|qual| = |seq|`:
+    the output sequence is `input[a:b]` — of the reverse complement iff the stage chose that orientation
+    (`info.is_rc = True`) — the output qualities are the same slice `[a:b]` of the (reversed) input qualities, changed at
+    most by the zero-cappers of the list; and sequence and qualities again have equal length. -/
+theorem pipeline_output_is_slice (names : Names) (mods : List SMod) (hok : ∀ m ∈ mods, m.OK true)
+    (hrc : revcompStages mods ≤ 1) (r r' : Read) (i i' : Info) (evs evs' : List Event) (hq : QualOK r)
+    (hi : i.isRc ≠ some true) (h : runModsS names mods r i evs = .ok (r', i', evs')) :
+    QualOK r' ∧
+    ∃ a b, r'.seq = seg (if i'.isRc = some true then r.revcomp else r).seq a b ∧
+      r'.qual = (if i'.isRc = some true then r.revcomp else r).qual.map (fun q => capAll (zeroCapBases mods) (seg q a b)) := by
+  obtain ⟨h1, h2⟩ := runModsS_segRel true names mods hok hrc r r' i i' evs evs' hq hi h
+  refine ⟨h1, ?_⟩
+  by_cases hf : i'.isRc = some true
+  · simp only [hf, if_true] at h2 ⊢
+    obtain ⟨a, b, e1, e2⟩ := h2
+    exact ⟨a, b, (e1.2 rfl).symm, e2⟩
+  · simp only [hf, if_false] at h2 ⊢
+    obtain ⟨a, b, e1, e2⟩ := h2
+    exact ⟨a, b, (e1.2 rfl).symm, e2⟩
+
+/-- without `-z` in the list: plainly `SameSeg` -/
+theorem pipeline_output_is_slice_nocap (names : Names) (mods : List SMod) (hok : ∀ m ∈ mods, m.OK true)
+    (hz : zeroCapBases mods = [])
+    (hrc : revcompStages mods ≤ 1) (r r' : Read) (i i' : Info) (evs evs' : List Event) (hq : QualOK r)
+    (hi : i.isRc ≠ some true) (h : runModsS names mods r i evs = .ok (r', i', evs')) :
+    QualOK r' ∧ SameSeg (if i'.isRc = some true then r.revcomp else r) r' := by
+  obtain ⟨h1, a, b, e1, e2⟩ := pipeline_output_is_slice names mods hok hrc r r' i i' evs evs' hq hi h
+  rw [hz] at e2
+  exact ⟨h1, a, b, e1, e2⟩
+
+/-- **…and with mask / lowercase the output is a *marked* slice**: same statement with every action allowed (adapters
+    sound): the output sequence has the length of the slice `[a:b]`, and the qualities are that slice (zero-capped). -/
+theorem pipeline_output_marked_slice (names : Names) (mods : List SMod) (hok : ∀ m ∈ mods, m.OK false)
+    (hrc : revcompStages mods ≤ 1) (r r' : Read) (i i' : Info) (evs evs' : List Event) (hq : QualOK r)
+    (hi : i.isRc ≠ some true) (h : runModsS names mods r i evs = .ok (r', i', evs')) :
+    QualOK r' ∧
+    ∃ a b, r'.seq.length = (seg r.seq a b).length ∧
+      r'.qual = (if i'.isRc = some true then r.revcomp else r).qual.map (fun q => capAll (zeroCapBases mods) (seg q a b)) := by
+  obtain ⟨h1, h2⟩ := runModsS_segRel false names mods hok hrc r r' i i' evs evs' hq hi h
+  refine ⟨h1, ?_⟩
+  by_cases hf : i'.isRc = some true
+  · simp only [hf, if_true] at h2 ⊢
+    obtain ⟨a, b, e1, e2⟩ := h2
+    refine ⟨a, b, ?_, e2⟩
+    rw [← e1.1, seg_length, seg_length]; simp [Read.revcomp]
+  · simp only [hf, if_false] at h2 ⊢
+    obtain ⟨a, b, e1, e2⟩ := h2
+    exact ⟨a, b, e1.1.symm, e2⟩
+
+/-- **The pipelines the CLI assembles** (`make_pipeline_from_args`, single-end) satisfy the hypotheses above: for every
+    option set accepted by `makeModsSingle`, with `strict = true` for the cutting actions (or `strict = false` and sound
+    adapters for mask / lowercase), every read that passes the modifiers comes out as a slice of the input (of its reverse
+    complement iff flagged), qualities sliced alike and zero-capped exactly when `-z` was given -/
+theorem cli_pipeline_output_is_slice (o : Opts) (ads : List Matchable) (mods : List SMod)
+    (hm : makeModsSingle o ads = .ok mods) (strict : Bool) (hc : CutterOK strict ⟨ads, o.times, o.action⟩)
+    (read r' : Read) (i' : Info) (evs evs' : List Event) (hq : QualOK read)
+    (h : runModsS (namesOf ads) mods read { original := read } evs = .ok (r', i', evs')) :
+    QualOK r' ∧
+    SegRel strict (if o.zeroCap then [o.qualityBase.toNat] else []) (if i'.isRc = some true then read.revcomp else read) r' := by
+  obtain ⟨h1, h2, h3⟩ := makeModsSingle_hyps o ads mods hm
+  obtain ⟨a, b⟩ := runModsS_segRel strict (namesOf ads) mods (h3 strict hc) h1 read r' _ i' evs evs' hq (by simp) h
+  rw [h2] at b
+  refine ⟨a, ?_⟩
+  by_cases hf : i'.isRc = some true
+  · rw [if_pos hf] at b ⊢; exact b
+  · rw [if_neg hf] at b ⊢; exact b
+
+theorem cutterOK_def (strict : Bool) (c : Cutter) :
+    CutterOK strict c ↔ ((c.action = .trim ∨ c.action = .retain ∨ c.action = .crop ∨ c.action = .none) ∨
+      (strict = false ∧ AdaptersInBounds c.adapters)) := Iff.rfl
+
+/-- the hypothesis `AdaptersInBounds` is what C01 proves: for adapters that are well-formed in the sense of C01
+    (`C01.AdapterWF`, as `mkAdapter` builds them), every reported match has `rstart ≤ rstop ≤ len(sequence)` -/
+theorem sound_adapters_in_bounds (ads : List Matchable) (h : ∀ a ∈ ads, a.WF) : AdaptersInBounds ads :=
+  adaptersInBounds_of_wf ads h
+
+theorem matchable_wf_def (a : Matchable) :
+    a.WF ↔ match a with | .single x => C01.AdapterWF x | .linked f b _ _ _ => C01.AdapterWF f ∧ C01.AdapterWF b := by
+  cases a <;> rfl
+
+/-- **…so for well-formed adapters every action is covered**: whatever `--action`, the read that leaves the modifiers
+    of a CLI-assembled single-end pipeline has the length of a slice `[a, b)` of the input (of its reverse complement iff
+    flagged) and carries exactly that slice of the qualities (zero-capped iff `-z`); for the cutting actions the sequence
+    *is* that slice (`cli_pipeline_output_is_slice` with `strict = true`) -/
+theorem cli_pipeline_marked_slice_for_sound_adapters (o : Opts) (ads : List Matchable) (mods : List SMod)
+    (hm : makeModsSingle o ads = .ok mods) (hwf : ∀ a ∈ ads, a.WF)
+    (read r' : Read) (i' : Info) (evs evs' : List Event) (hq : QualOK read)
+    (h : runModsS (namesOf ads) mods read { original := read } evs = .ok (r', i', evs')) :
+    QualOK r' ∧
+    SegRel false (if o.zeroCap then [o.qualityBase.toNat] else []) (if i'.isRc = some true then read.revcomp else read) r' :=
+  cli_pipeline_output_is_slice o ads mods hm false (Or.inr ⟨rfl, adaptersInBounds_of_wf ads hwf⟩) read r' i' evs evs' hq h
+
+/-! ## 7. Paired-end -/
+
+/-- **`PairedModifierWrapper`**: each mate goes through its own modifier; the statement of section 6 holds per mate -/
+theorem paired_wrap_slices (strict : Bool) (ads1 ads2 : List Matchable) (m1 m2 : Option SMod)
+    (hok1 : ∀ x ∈ m1, x.OK strict) (hok2 : ∀ x ∈ m2, x.OK strict)
+    (hrc1 : ∀ x ∈ m1, x.isRevcomp = false) (hrc2 : ∀ x ∈ m2, x.isRevcomp = false)
+    (r1 r2 o1 o2 : Read) (i1 i2 j1 j2 : Info) (evs : List Event) (hq1 : QualOK r1) (hq2 : QualOK r2)
+    (h : applyP ads1 ads2 (.wrap m1 m2) (r1, r2) (i1, i2) = .ok ((o1, o2), (j1, j2), evs)) :
+    SegRel strict ((m1.map SMod.capBases).getD []) r1 o1 ∧ SegRel strict ((m2.map SMod.capBases).getD []) r2 o2 ∧
+    j1.isRc = i1.isRc ∧ j2.isRc = i2.isRc :=
+  applyP_wrap_segRel strict ads1 ads2 m1 m2 hok1 hok2 hrc1 hrc2 r1 r2 o1 o2 i1 i2 j1 j2 evs hq1 hq2 h
+
+/-- **Paired `--revcomp`**: the output mates are slices of (R1, R2) — or of (R2, R1), *not* reverse-complemented, exactly
+    when the stage flags the pair (`is_rc = True` on both infos). `strict = false` covers mask / lowercase (under
+    `lowercase` both mates are upper-cased whatever is chosen). -/
+theorem paired_revcomp_slices (strict : Bool) (ads1 ads2 : List Matchable) (c1 c2 : Option Cutter)
+    (sfx first1 first2 : Bool) (hok1 : ∀ c ∈ c1, CutterOK strict c) (hok2 : ∀ c ∈ c2, CutterOK strict c)
+    (r1 r2 o1 o2 : Read) (i1 i2 j1 j2 : Info) (evs : List Event)
+    (h : applyP ads1 ads2 (.pairedRevcomp c1 c2 sfx first1 first2) (r1, r2) (i1, i2) = .ok ((o1, o2), (j1, j2), evs)) :
+    (j1.isRc = some true ∧ j2.isRc = some true ∧ SegRel strict [] r2 o1 ∧ SegRel strict [] r1 o2) ∨
+    (j1.isRc = some false ∧ j2.isRc = some false ∧ SegRel strict [] r1 o1 ∧ SegRel strict [] r2 o2) :=
+  applyP_pairedRevcomp_segRel strict ads1 ads2 c1 c2 sfx first1 first2 hok1 hok2 r1 r2 o1 o2 i1 i2 j1 j2 evs h
+
+theorem pmod_ok_def (s : Bool) (m : PMod) :
+    m.OK s ↔ match m with
+      | .wrap m1 m2 => (∀ x ∈ m1, x.OK s ∧ x.isRevcomp = false) ∧ (∀ x ∈ m2, x.OK s ∧ x.isRevcomp = false)
+      | .pairedRevcomp c1 c2 _ _ _ => (∀ c ∈ c1, CutterOK s c) ∧ (∀ c ∈ c2, CutterOK s c)
+      | .pairAdapters _ _ action _ _ => action = .trim ∨ action = .retain ∨ action = .crop ∨ action = .none
+      | .pairedRename _ _ => True := by
+  cases m <;> rfl
+
+theorem pairRel_def (s : Bool) (r o : Read × Read) :
+    PairRel s r o ↔ ((∃ bs, SegRel s bs r.1 o.1) ∧ (∃ bs, SegRel s bs r.2 o.2)) := Iff.rfl
+
+/-- **The paired-end modifier list as a whole** (wrapped single-end modifiers, `--pair-adapters` with a cutting action,
+    paired renaming, at most one paired `--revcomp`): both output mates are slices (qualities alike, zero-capped at most)
+    of the input mates — of the *other* mate each iff the pair was flagged as swapped — with equally long sequence and
+    qualities -/
+theorem paired_pipeline_output_is_slice (s : Bool) (ads1 ads2 : List Matchable) (mods : List PMod)
+    (hok : ∀ m ∈ mods, m.OK s) (hrc : pairedRevcompStages mods ≤ 1) (r o : Read × Read) (i j : Info × Info)
+    (evs evs' : List Event) (hq1 : QualOK r.1) (hq2 : QualOK r.2) (hi : i.1.isRc ≠ some true)
+    (h : runModsP ads1 ads2 mods r i evs = .ok (o, j, evs')) :
+    (QualOK o.1 ∧ QualOK o.2) ∧ (if j.1.isRc = some true then PairRel s (r.2, r.1) o else PairRel s r o) :=
+  runModsP_pairRel s ads1 ads2 mods hok hrc r o i j evs evs' hq1 hq2 hi h
+
+/-! ## 8. Concrete runs (non-vacuity) -/
+
+/-- `-g AAAGGG` -/
+def exFront : Adapter :=
+  { ty := .front, seq := [65,65,65,71,71,71], thr := fun L => L / 10, minOverlap := 3,
+    readWildcards := false, adapterWildcards := false, indels := true, name := "f" }
+/-- `-a ACGTACGT` -/
+def exBack : Adapter :=
+  { ty := .back, seq := [65,67,71,84,65,67,71,84], thr := fun L => L / 10, minOverlap := 3,
+    readWildcards := false, adapterWildcards := false, indels := true, name := "b" }
+/-- `-a GATTACAG` -/
+def exBack2 : Adapter :=
+  { ty := .back, seq := [71,65,84,84,65,67,65,71], thr := fun L => L / 10, minOverlap := 3,
+    readWildcards := false, adapterWildcards := false, indels := true, name := "g" }
+/-- `-g AAAGGG -a ACGTACGT -n 2 --action=…` -/
+def exCutter (a : Action) : Cutter := ⟨[.single exFront, .single exBack], 2, a⟩
+/-- `AAAGGGTTTTCCCCACGTACGT`, qualities `()*+…` (40, 41, …) -/
+def exRead : Read :=
+  ⟨[114], [65,65,65,71,71,71, 84,84,84,84,67,67,67,67, 65,67,71,84,65,67,71,84], some ((List.range 22).map (fun i => (40 + i).toUInt8))⟩
+
+/-- two rounds: the 3' adapter at `[14, 22)` first, then the 5' adapter at `[0, 6)`; `remainder = (6, 14)`; trim keeps
+    `TTTTCCCC` with qualities 46…53 -/
+example : (match matchAndTrim (exCutter .trim) exRead with
+    | .ok (r, ms, _) => (r.seq, r.qual, ms.length, remainder ms) ==
+        ([84,84,84,84,67,67,67,67], some [46,47,48,49,50,51,52,53], 2, (6, 14))
+    | .error _ => false) = true := by decide +kernel
+
+/-- mask: `NNNNNNTTTTCCCCNNNNNNNN`, qualities untouched -/
+example : (match matchAndTrim (exCutter .mask) exRead with
+    | .ok (r, _, _) => (r.seq, r.qual) ==
+        ([78,78,78,78,78,78, 84,84,84,84,67,67,67,67, 78,78,78,78,78,78,78,78], exRead.qual)
+    | .error _ => false) = true := by decide +kernel
+
+/-- lowercase: `aaagggTTTTCCCCacgtacgt` -/
+example : (match matchAndTrim (exCutter .lowercase) exRead with
+    | .ok (r, _, _) => (r.seq, r.qual) ==
+        ([97,97,97,103,103,103, 84,84,84,84,67,67,67,67, 97,99,103,116,97,99,103,116], exRead.qual)
+    | .error _ => false) = true := by decide +kernel
+
+/-- retain keeps from the start of the last match (the 5' adapter) to the end of what it was found in: `AAAGGGTTTTCCCC`;
+    crop keeps the last match itself: `AAAGGG`; none keeps everything -/
+example : (match matchAndTrim (exCutter .retain) exRead, matchAndTrim (exCutter .crop) exRead, matchAndTrim (exCutter .none) exRead with
+    | .ok (r1, _, _), .ok (r2, _, _), .ok (r3, _, _) =>
+      (r1.seq, r2.seq, r2.qual, r3 == exRead) ==
+        ([65,65,65,71,71,71, 84,84,84,84,67,67,67,67], [65,65,65,71,71,71], some [40,41,42,43,44,45], true)
+    | _, _, _ => false) = true := by decide +kernel
+
+/-- a pipeline `-u 1 --revcomp -a GATTACAG -z (base 44)` on the reverse complement of `TTTTCCCCGATTACAGGG`: the reverse
+    complement is chosen, the output `TTTTCCCC` is the slice `[0, 8)` of the reverse complement of the input, the
+    qualities are that slice of the reversed qualities with values below 44 raised to 44, and the name gets `" rc"` -/
+example :
+    let fw : Read := ⟨[114], [84,84,84,84,67,67,67,67, 71,65,84,84,65,67,65,71, 71,71], some ((List.range 18).map (fun i => (40 + i).toUInt8))⟩
+    (match runModsS ["g"] [.cut 1, .revcomp ⟨[.single exBack2], 1, .trim⟩ true false, .zeroCap 44] fw.revcomp
+        { original := fw.revcomp } [] with
+     | .ok (r, i, _) => (r.name, r.seq, r.qual, i.isRc) ==
+         ([114, 32, 114, 99], [84,84,84,84,67,67,67,67], some [44,44,44,44,44,45,46,47], some true)
+     | .error _ => false) = true := by decide +kernel
+
 end Cutadapt.C03
